@@ -503,6 +503,23 @@ def mode_masks(ctx: Context, idx, res, reg) -> None:
                 elts = sl.elts if isinstance(sl, ast.Tuple) else [sl]
                 if any(mt.derived(e) for e in elts):
                     masks.add(n.targets[0].value.id)
+        # the complement of the mask of the complement is a mask of the mode tuple too: `aux[get_auxiliary_modes(d, modes)] = True;
+        # active = ~aux` (also np.logical_not / np.invert)
+        comp_masks: Set[str] = set()
+        for n in walk_no_nested(fn.node):
+            if isinstance(n, ast.Assign) and len(n.targets) == 1 and isinstance(n.targets[0], ast.Subscript) \
+                    and isinstance(n.targets[0].value, ast.Name) and n.targets[0].value.id in bools:
+                sl = n.targets[0].slice
+                elts = sl.elts if isinstance(sl, ast.Tuple) else [sl]
+                if any(mt.complement(e) for e in elts):
+                    comp_masks.add(n.targets[0].value.id)
+        for n in walk_no_nested(fn.node):
+            if isinstance(n, ast.Assign) and len(n.targets) == 1 and isinstance(n.targets[0], ast.Name):
+                v = n.value
+                neg = v.operand if isinstance(v, ast.UnaryOp) and isinstance(v.op, ast.Invert) else (
+                    v.args[0] if isinstance(v, ast.Call) and (dotted(v.func) or "").split(".")[-1] in ("logical_not", "invert") and v.args else None)
+                if isinstance(neg, ast.Name) and neg.id in comp_masks:
+                    masks.add(n.targets[0].id)
         if not masks:
             continue
         n_masks += len(masks)
